@@ -11,7 +11,7 @@ RULE = ("cases: seeded inputs over the documented domain of linear_operator.util
         "the right-hand side, vector and matrix right-hand sides, duplicate interpolation indices, zero values, empty sparse "
         "tensors, repeats of dimensions of size > 1, full / partial / batched permutations, tall / square / fat / nearly "
         "rank-deficient matrices, f32/f64. oracle: dense definitions written with plain torch. distinct key = (function, batch "
-        "rank, rhs kind, dtype, variant) [added: exactly rank-deficient QR / pseudo-inverse inputs (zero column / row, zero matrix, repeated integer column): R stabilised (|R_ii| >= 1e-6), Q R = A, finite pseudo-inverse]")
+        "rank, rhs kind, dtype, variant) [added: exactly rank-deficient QR / pseudo-inverse inputs (zero column / row, zero matrix, repeated integer column): R stabilised (|R_ii| >= 1e-6), Q R = A, finite pseudo-inverse] [round 4: row / column / both / partial permutations of rectangular (tall and fat) matrices; pseudo-inverse tolerance max(base, 50 cond eps)]")
 ASSUMPTIONS = ["dense definitions in lomon/model.py (explicit Toeplitz / interpolation matrices) and torch (to_dense, gather, pinv)"]
 REQUIRED_STATS = ("functions",)
 
